@@ -386,8 +386,11 @@ class Reporting(Harness):
             yield 'text-suffix', obs['head'] == self.kt + ' (' + szs + '-bit)'
         else:
             yield 'text-suffix', obs['head'] == self.kt
-        if rsa or self.kt.startswith('ssh-rsa-cert-v0'):
+        # wherever the text report shows the measured host-key size, the JSON entry carries it as well
+        if rsa:
             yield 'json-keysize', obs['json']['keysize'] == sz
+        elif self.ca_type:
+            yield 'json-keysize', s_implies(ca > 0, obs['json']['keysize'] == sz)
 
 
 class Fingerprints(Harness):
@@ -499,7 +502,7 @@ def tasks(tier):
         for ca in ('ssh-rsa', 'ssh-ed25519', 'ecdsa-sha2-nistp256'):
             for nd, ndca in ([(4, 4), (3, 3)] if q else [(4, 4), (3, 3), (4, 3), (3, 4), (4, 1)]):
                 T.append(Thresholds((kt,), ca, nd, ndca))
-    for kt, ca in [('ssh-rsa', ''), ('rsa-sha2-512', ''), ('ssh-ed25519', ''), ('ssh-rsa-cert-v01@openssh.com', 'ssh-rsa'), ('ssh-rsa-cert-v01@openssh.com', 'ssh-ed25519'),
+    for kt, ca in [('ssh-rsa', ''), ('rsa-sha2-512', ''), ('ssh-ed25519', ''), ('ssh-rsa-cert-v01@openssh.com', 'ssh-rsa'), ('rsa-sha2-512-cert-v01@openssh.com', 'ssh-rsa'), ('rsa-sha2-256-cert-v01@openssh.com', 'ssh-ed25519'), ('ssh-rsa-cert-v01@openssh.com', 'ssh-ed25519'),
                    ('ssh-ed25519-cert-v01@openssh.com', 'ssh-rsa'), ('ssh-ed25519-cert-v01@openssh.com', 'ecdsa-sha2-nistp256')]:
         T.append(Reporting(kt, ca))
     for types in [('ssh-rsa',), ('rsa-sha2-512',), ('rsa-sha2-256', 'ssh-ed25519'), ('rsa-sha2-512', 'rsa-sha2-256', 'ssh-rsa'), ('ssh-ed25519', 'ssh-rsa'), ('ssh-ed25519-cert-v01@openssh.com', 'ssh-ed25519'),
